@@ -160,8 +160,12 @@ func (fatalHook) Fire(e *logrus.Entry) error {
 
 func installHooks() {
 	hooksOnce.Do(func() {
-		logrus.SetOutput(io.Discard)
-		logrus.SetLevel(logrus.ErrorLevel)
+		if os.Getenv("VERIF_SIM_LOG") != "" {
+			logrus.SetLevel(logrus.InfoLevel)
+		} else {
+			logrus.SetOutput(io.Discard)
+			logrus.SetLevel(logrus.ErrorLevel)
+		}
 		logrus.AddHook(fatalHook{})
 		// log.Fatal inside a ready-loop ends that replica only, as a process
 		// exit would in production; the fatal hook has recorded the reason.
@@ -376,8 +380,19 @@ func (c *Cluster) StartNode(i int) error {
 		return runErr
 	}
 	n.In = n.Srv.VerifInternals()
-	if err := n.Srv.JoinCluster(); err != nil {
-		return fmt.Errorf("join: %v", err)
+	var joinErr error
+	if !c.Guard(40*time.Second, func() { joinErr = n.Srv.JoinCluster() }) {
+		diag := ""
+		for _, m := range c.Nodes {
+			if m.In != nil && m.In.ZeroGroup != nil {
+				st := m.In.ZeroGroup.VerifStatus()
+				diag += fmt.Sprintf(" | node %d dead=%v book=%v zero{term=%d vote=%d lead=%d commit=%d applied=%d %s progress=%d}", m.Id, m.Dead(), m.In.ClusterConn.Nodes(), st.Term, st.Vote, st.Lead, st.Commit, st.Applied, st.RaftState, len(st.Progress))
+			}
+		}
+		return fmt.Errorf("join handshake did not return within 40 s%s", diag)
+	}
+	if joinErr != nil {
+		return fmt.Errorf("join: %v", joinErr)
 	}
 	return nil
 }
